@@ -55,6 +55,9 @@ def feed_counts(feed):
         d, g, t = r["results_dem"], r["results_gop"], r["results_turnout"]
         out[f] = dict(turnout=t, dem=d, gop=g, margin=d - g, two_party=d + g, pct=r["percent_expected_vote"],
                       party_vote_share_dem=(d / t if t else 0.0))
+        for c, v in r.items():  # any further estimand the feed carries (e.g. candidates of a primary)
+            if c.startswith("results_") and c[8:] not in out[f]:
+                out[f][c[8:]] = v
     return out, dup
 
 
